@@ -277,4 +277,16 @@ theorem entries_not_behind_xrefstream {s s' : WState} {cat : Obj} {info : Option
         rw [i3.pos_eq]; omega
       · omega
 
+
+-- non-vacuity of the stream-form theorems: a PDF 1.5 program (cross-reference stream) ends in a
+-- state whose tail the checker accepts; the offset it returns is the one recorded for the
+-- cross-reference stream's own number, the last one
+example : (match initState { C02fiob.exOpts with version := Gen.fio_V1_5 } with
+    | some s0 => (match run s0 C02fiob.exProg 0 with
+      | .ok s => (match Spec.FileWF.checkTail s.out with
+          | .ok x => s.opts.objStm && s.xref.get (s.nextRef - 1) == some ⟨0, (x : Int), 0⟩ && decide (0 < x)
+          | _ => false)
+      | _ => false)
+    | none => false) = true := by decide +kernel
+
 end PdfVerif.C03fiob
